@@ -229,7 +229,7 @@ def run(ctx):
     for name, e in corpus().items():
         progs.append((name, e, G.to_sx(e), {"source": "corpus"}))
     base = rng.getrandbits(48)
-    n = ctx.n(230, 1000)
+    n = ctx.n(190, 1000)
     feats = {}
     for i in range(n):
         prng = random.Random(base + i)
